@@ -37,25 +37,30 @@ pub fn case_strategy() -> BoxedStrategy<Case> {
         .boxed()
 }
 
-fn read_n<S: Source + ?Sized, const N: usize>(s: &S, offset: usize) -> Option<Vec<u8>> {
-    s.read::<&[u8; N]>(offset).map(|a| a.to_vec())
+/// (chunk size, returned Some?, bytes - only dereferenced when the chunk is in bounds, so that a wrong
+/// `Some` is reported instead of being dereferenced)
+fn read_n<S: Source + ?Sized, const N: usize>(s: &S, offset: usize, len: usize) -> (usize, bool, Option<Vec<u8>>) {
+    let r = s.read::<&[u8; N]>(offset);
+    let in_bounds = offset.checked_add(N).map_or(false, |e| e <= len);
+    (N, r.is_some(), if in_bounds { r.map(|a| a.to_vec()) } else { None })
 }
 
-fn reads<S: Source + ?Sized>(s: &S, offset: usize) -> Vec<(usize, Option<Vec<u8>>)> {
+fn reads<S: Source + ?Sized>(s: &S, offset: usize, len: usize) -> Vec<(usize, bool, Option<Vec<u8>>)> {
+    let b = s.read::<u8>(offset);
     vec![
-        (1, s.read::<u8>(offset).map(|b| vec![b])),
-        (0, read_n::<S, 0>(s, offset)),
-        (1, read_n::<S, 1>(s, offset)),
-        (2, read_n::<S, 2>(s, offset)),
-        (3, read_n::<S, 3>(s, offset)),
-        (4, read_n::<S, 4>(s, offset)),
-        (7, read_n::<S, 7>(s, offset)),
-        (8, read_n::<S, 8>(s, offset)),
-        (9, read_n::<S, 9>(s, offset)),
-        (16, read_n::<S, 16>(s, offset)),
-        (31, read_n::<S, 31>(s, offset)),
-        (32, read_n::<S, 32>(s, offset)),
-        (33, read_n::<S, 33>(s, offset)),
+        (1, b.is_some(), b.map(|b| vec![b])),
+        read_n::<S, 0>(s, offset, len),
+        read_n::<S, 1>(s, offset, len),
+        read_n::<S, 2>(s, offset, len),
+        read_n::<S, 3>(s, offset, len),
+        read_n::<S, 4>(s, offset, len),
+        read_n::<S, 7>(s, offset, len),
+        read_n::<S, 8>(s, offset, len),
+        read_n::<S, 9>(s, offset, len),
+        read_n::<S, 16>(s, offset, len),
+        read_n::<S, 31>(s, offset, len),
+        read_n::<S, 32>(s, offset, len),
+        read_n::<S, 33>(s, offset, len),
     ]
 }
 
@@ -65,32 +70,35 @@ pub fn interpret(case: &Case, run: Option<&mut Run>) -> Result<(), String> {
     let got = match case.kind {
         0 => {
             let s: Box<str> = String::from_utf8(bytes.clone()).unwrap().into_boxed_str();
-            reads::<str>(&s, case.offset)
+            reads::<str>(&s, case.offset, len)
         }
         1 => {
             let b: Box<[u8]> = bytes.clone().into_boxed_slice();
-            reads::<[u8]>(&b, case.offset)
+            reads::<[u8]>(&b, case.offset, len)
         }
         2 => {
             let s: String = String::from_utf8(bytes.clone()).unwrap();
-            reads::<String>(&s, case.offset)
+            reads::<String>(&s, case.offset, len)
         }
         3 => {
             let v: Vec<u8> = bytes.clone();
-            reads::<Vec<u8>>(&v, case.offset)
+            reads::<Vec<u8>>(&v, case.offset, len)
         }
         4 => {
             let s: Box<str> = String::from_utf8(bytes.clone()).unwrap().into_boxed_str();
-            reads::<Box<str>>(&s, case.offset)
+            reads::<Box<str>>(&s, case.offset, len)
         }
         _ => {
             let b: Box<[u8]> = bytes.clone().into_boxed_slice();
             let r: &[u8] = &b;
-            reads::<&[u8]>(&r, case.offset)
+            reads::<&[u8]>(&r, case.offset, len)
         }
     };
-    for (n, g) in &got {
+    for (n, some, g) in &got {
         let expect = case.offset.checked_add(*n).filter(|&e| e <= len).map(|e| bytes[case.offset..e].to_vec());
+        if *some != expect.is_some() {
+            return Err(format!("read of a {n}-byte chunk at offset {} on a {len}-byte source (kind {}) returned {}, expected {}", case.offset, case.kind, if *some { "Some" } else { "None" }, if expect.is_some() { "Some" } else { "None" }));
+        }
         if *g != expect {
             return Err(format!("read of a {n}-byte chunk at offset {} on a {len}-byte source (kind {}) returned {:?}, expected {:?}", case.offset, case.kind, g, expect));
         }
